@@ -44,6 +44,11 @@ class DeepTracer(Tracer):
         self.last_post = {}         # endpoint -> the state after its last iteration, rendered the way a pre-state is
         self.osaved = {}
         self.step_pre = None
+        # two-end composition: what a handler of one end returned (requests, replies), and whether what a handler of the other end
+        # was later given is, field by field in the model's vocabulary, one of those
+        self.outputs = {'A': set(), 'B': set()}
+        self.comp = {'requests_in': 0, 'requests_verbatim': 0, 'responses_in': 0, 'responses_verbatim': 0}
+        self.comp_missing = []
         super().__init__(world)
         self._install_oracles()
 
@@ -285,6 +290,15 @@ class DeepTracer(Tracer):
                 args += self.r_kid(a[0]) + opt(None if rk is None else self.r_kid(rk))
         else:
             args = [kind] + wire.r_msg(a[0], with_iv=False) + ['none']
+            if int(a[0].exchange_type) >= 35:
+                me = self.w.current.name
+                text = ' '.join(args[1:-1])
+                what = 'requests' if a[0].is_request else 'responses'
+                self.comp[what + '_in'] += 1
+                if text in self.outputs['B' if me == 'A' else 'A']:
+                    self.comp[what + '_verbatim'] += 1
+                elif a[0].is_request and len(self.comp_missing) < 5:
+                    self.comp_missing.append((me, name, text[:400]))
         n = sa.new_ike_sa
         pre = self.r_xsa(sa) + opt(None if n is None else self.r_xsa(n))
         # the step of the state machine a request generator stands for (RFC 7296 exchanges as this daemon numbers them)
@@ -316,6 +330,8 @@ class DeepTracer(Tracer):
         else:
             ex = res[1]
             r = ['ikeerr' if isinstance(ex, M.IkeSaError) else 'othererr'] + wire.r_payload(M.PayloadNOTIFY.from_exception(ex))
+        if res[0] == 'ok' and res[1] is not None:
+            self.outputs[self.w.current.name].add(' '.join(r[1:-1]))
         nlt = self.r_nl(nl)
         exp = (self.r_xsa(sa) + opt(None if n is None else self.r_xsa(n)) + r + [str(len(nlt))] + [x for op in nlt for x in op] + ['0', '0']
                + self.r_sad(self.w.current.kernel))
